@@ -798,3 +798,306 @@ Proof.
 Qed.
 
 End NTM.
+
+(* ================= MNTM ================= *)
+Section MZeq.
+
+Lemma F2zeq_refl ts : Forall2 zeq ts ts.
+Proof. induction ts; constructor; [apply zeq_refl|assumption]. Qed.
+Lemma F2zeq_sym a b : Forall2 zeq a b -> Forall2 zeq b a.
+Proof. induction 1; constructor; [apply zeq_sym|]; assumption. Qed.
+Lemma F2zeq_trans a b : Forall2 zeq a b -> forall c, Forall2 zeq b c -> Forall2 zeq a c.
+Proof.
+  induction 1 as [|x y a b Hxy Hab IH]; intros c Hc; inversion Hc; subst; constructor.
+  - eapply zeq_trans; eassumption.
+  - apply IH. assumption.
+Qed.
+
+Lemma mzcfg_eq_refl c : mzcfg_eq c c.
+Proof. split; [reflexivity|apply F2zeq_refl]. Qed.
+Lemma mzcfg_eq_sym c d : mzcfg_eq c d -> mzcfg_eq d c.
+Proof. intros [H1 H2]. split; [auto|apply F2zeq_sym; exact H2]. Qed.
+Lemma mzcfg_eq_trans c d e : mzcfg_eq c d -> mzcfg_eq d e -> mzcfg_eq c e.
+Proof. intros [H1 H2] [H3 H4]. split; [congruence|eapply F2zeq_trans; eassumption]. Qed.
+
+Lemma zheads_cong a b : Forall2 zeq a b -> zheads a = zheads b.
+Proof. induction 1 as [|x y a b Hxy Hab IH]; simpl; [reflexivity|]. rewrite (Hxy 0%Z), IH. reflexivity. Qed.
+
+Lemma zapply_cong a b : Forall2 zeq a b -> forall mv, Forall2 zeq (zapply mv a) (zapply mv b).
+Proof.
+  unfold zapply. induction 1 as [|x y a b Hxy Hab IH]; intros [|[s d] mv]; simpl; try constructor.
+  - apply zact_cong. exact Hxy.
+  - apply IH.
+Qed.
+
+Lemma heads_view ts : map t_read ts = zheads (map view ts).
+Proof. unfold zheads. rewrite map_map. apply map_ext. intro t. apply read_view. Qed.
+
+Lemma apply_view_aux : forall ts mv, Forall wf ts ->
+  Forall wf (map (fun p : mmove * tape => t_move (t_write (snd p) (fst (fst p))) (snd (fst p))) (combine mv ts)) /\
+  Forall2 zeq
+    (map view (map (fun p : mmove * tape => t_move (t_write (snd p) (fst (fst p))) (snd (fst p))) (combine mv ts)))
+    (zapply mv (map view ts)).
+Proof.
+  unfold zapply. induction ts as [|t ts IH]; intros [|[s d] mv] Hwf; simpl; try (split; constructor).
+  - inversion Hwf; subst. apply wf_act. assumption.
+  - inversion Hwf; subst. apply IH. assumption.
+  - inversion Hwf; subst. apply act_view. assumption.
+  - inversion Hwf; subst. apply IH. assumption.
+Qed.
+
+End MZeq.
+
+Section MNTM.
+Variable m : mntm.
+
+Definition wfs (c : mcfg) : Prop := Forall wf (snd c).
+Definition maccepting (z : mzcfg) : Prop :=
+  mt_final m z /\ mt_delta m (fst z) (zheads (snd z)) = None.
+
+Lemma maccepting_cong a b : mzcfg_eq a b -> maccepting a -> maccepting b.
+Proof.
+  intros [H1 H2] [Hf Hd]. unfold maccepting, mt_final. rewrite <- H1, <- (zheads_cong _ _ H2). split; assumption.
+Qed.
+
+Lemma mstep_cong_l c1 c2 c' : mzcfg_eq c1 c2 -> mstep m c1 c' -> mstep m c2 c'.
+Proof.
+  intros [H1 H2] [alts [q' [mv [Hd [Hin [Hq Hz]]]]]]. exists alts, q', mv.
+  rewrite <- H1, <- (zheads_cong _ _ H2). split; [exact Hd|]. split; [exact Hin|]. split; [exact Hq|].
+  eapply F2zeq_trans; [exact Hz|apply zapply_cong; exact H2].
+Qed.
+
+Lemma mstep_cong_r c c1 c2 : mzcfg_eq c1 c2 -> mstep m c c1 -> mstep m c c2.
+Proof.
+  intros [H1 H2] [alts [q' [mv [Hd [Hin [Hq Hz]]]]]]. exists alts, q', mv.
+  split; [exact Hd|]. split; [exact Hin|]. split; [congruence|].
+  eapply F2zeq_trans; [apply F2zeq_sym; exact H2|exact Hz].
+Qed.
+
+Lemma mreach_cong_r k c c1 c2 : mzcfg_eq c1 c2 -> mreach m k c c1 -> mreach m k c c2.
+Proof.
+  intros He Hr. induction Hr as [c c' H|k c c1' c' Hs Hr IH].
+  - apply mr_0. eapply mzcfg_eq_trans; eassumption.
+  - eapply mr_S; [exact Hs|]. apply IH. exact He.
+Qed.
+
+Lemma mreach_cong_l k c1 c2 c' : mzcfg_eq c1 c2 -> mreach m k c1 c' -> mreach m k c2 c'.
+Proof.
+  intros He Hr. inversion Hr; subst.
+  - apply mr_0. eapply mzcfg_eq_trans; [apply mzcfg_eq_sym; exact He|assumption].
+  - eapply mr_S; [eapply mstep_cong_l; eassumption|assumption].
+Qed.
+
+Lemma mreach_snoc k c c1 c' : mreach m k c c1 -> mstep m c1 c' -> mreach m (S k) c c'.
+Proof.
+  intros Hr Hs. induction Hr as [c c1 H|k c c2 c1 Hs1 Hr IH].
+  - eapply mr_S; [|apply mr_0; apply mzcfg_eq_refl].
+    eapply mstep_cong_l; [apply mzcfg_eq_sym; exact H|exact Hs].
+  - eapply mr_S; [exact Hs1|]. apply IH. exact Hs.
+Qed.
+
+Lemma mntm_apply_abs c a : wfs c ->
+  wfs (mntm_apply c a) /\
+  Forall2 zeq (snd (abs_mcfg (mntm_apply c a))) (zapply (snd a) (snd (abs_mcfg c))).
+Proof. intro Hwf. unfold wfs, mntm_apply, abs_mcfg. cbn [fst snd]. apply apply_view_aux. exact Hwf. Qed.
+
+(* one BFS iteration on a dequeued configuration *)
+Lemma expand_inr c new : wfs c -> mntm_expand m c = inr new ->
+  ~ maccepting (abs_mcfg c) /\
+  (forall c', In c' new -> wfs c' /\ mstep m (abs_mcfg c) (abs_mcfg c')) /\
+  (forall z, mstep m (abs_mcfg c) z -> exists c', In c' new /\ mzcfg_eq (abs_mcfg c') z).
+Proof.
+  intros Hwf. unfold mntm_expand.
+  assert (Hh : map t_read (snd c) = zheads (snd (abs_mcfg c))) by apply heads_view.
+  destruct (mt_delta m (fst c) (map t_read (snd c))) as [[|a0 rest]|] eqn:Hd.
+  - discriminate.
+  - intro H. inversion H; subst new. clear H. rewrite Hh in Hd.
+    assert (Hmem : forall c', In c' (map (mntm_apply c) rest ++ [mntm_apply c a0]) <->
+                              exists a, In a (a0 :: rest) /\ c' = mntm_apply c a).
+    { intro c'. rewrite in_app_iff, in_map_iff. simpl. split.
+      - intros [[a [Ha Hin]]|[Ha|[]]]; [exists a|exists a0]; auto.
+      - intros [a [[Ha|Ha] Hc]]; subst; [right; left; reflexivity|left; exists a; auto]. }
+    split; [|split].
+    + intros [_ Hn]. cbn [abs_mcfg fst] in Hn. rewrite Hd in Hn. discriminate.
+    + intros c' Hc'. apply Hmem in Hc'. destruct Hc' as [a [Ha ->]].
+      destruct (mntm_apply_abs c a Hwf) as [Hw Hz]. split; [exact Hw|].
+      exists (a0 :: rest), (fst a), (snd a). split; [exact Hd|]. split; [destruct a; exact Ha|].
+      split; [reflexivity|exact Hz].
+    + intros z [alts [q' [mv [Hd' [Hin [Hq Hz]]]]]]. cbn [abs_mcfg fst] in Hd'. cbn [abs_mcfg fst] in Hd.
+      rewrite Hd in Hd'. inversion Hd'; subst alts.
+      exists (mntm_apply c (q', mv)). split; [apply Hmem; exists (q', mv); auto|].
+      destruct (mntm_apply_abs c (q', mv) Hwf) as [_ Hz'].
+      split; [cbn; congruence|]. eapply F2zeq_trans; [exact Hz'|]. apply F2zeq_sym. exact Hz.
+  - rewrite Hh in Hd. destruct (memb (fst c) (mt_finals m)) eqn:Ef; [discriminate|].
+    intro H. inversion H; subst new. split; [|split].
+    + intros [Hf _]. apply memb_false in Ef. exact (Ef Hf).
+    + intros c' [].
+    + intros z [alts [q' [mv [Hd' _]]]]. cbn [abs_mcfg fst] in Hd', Hd. rewrite Hd in Hd'. discriminate.
+Qed.
+
+Lemma expand_ok c cl : mntm_expand m c = inl (Ok cl) -> cl = c /\ maccepting (abs_mcfg c).
+Proof.
+  unfold mntm_expand.
+  assert (Hh : map t_read (snd c) = zheads (snd (abs_mcfg c))) by apply heads_view.
+  destruct (mt_delta m (fst c) (map t_read (snd c))) as [[|a0 rest]|] eqn:Hd; try discriminate.
+  destruct (memb (fst c) (mt_finals m)) eqn:Ef; [|discriminate].
+  intro H. inversion H; subst. split; [reflexivity|]. split.
+  - apply memb_In. exact Ef.
+  - cbn [abs_mcfg fst]. rewrite <- Hh. exact Hd.
+Qed.
+
+Lemma expand_err c e : mntm_expand m c = inl (Err e) ->
+  e = IndexErr /\ mt_delta m (fst c) (map t_read (snd c)) = Some [].
+Proof.
+  unfold mntm_expand.
+  destruct (mt_delta m (fst c) (map t_read (snd c))) as [[|a0 rest]|] eqn:Hd; try discriminate.
+  - intro H. inversion H. auto.
+  - destruct (memb (fst c) (mt_finals m)); discriminate.
+Qed.
+
+Definition mreachable (w : list nat) (z : mzcfg) : Prop := exists k, mreach m k (mt_start m w) z.
+
+Lemma mntm_bfs_eq fuel queue : mntm_bfs m fuel queue =
+  match queue with
+  | [] => ([], Err Reject)
+  | c :: q =>
+    match fuel with
+    | 0 => ([], Err Fuel)
+    | S f => match mntm_expand m c with
+             | inl o => ([c], o)
+             | inr new => let (ys, o) := mntm_bfs m f (q ++ new) in (c :: ys, o)
+             end
+    end
+  end.
+Proof. destruct fuel; reflexivity. Qed.
+
+(* soundness: everything dequeued is reachable; an accepting end is an accepting configuration *)
+Lemma mntm_bfs_sound w fuel : forall queue ys o,
+  (forall c, In c queue -> wfs c /\ mreachable w (abs_mcfg c)) ->
+  mntm_bfs m fuel queue = (ys, o) ->
+  (forall c, In c ys -> mreachable w (abs_mcfg c)) /\ length ys <= fuel /\
+  match o with
+  | Ok cl => In cl ys /\ maccepting (abs_mcfg cl)
+  | Err Reject => True
+  | Err Fuel => length ys = fuel
+  | Err IndexErr => exists c, In c ys /\ mt_delta m (fst c) (map t_read (snd c)) = Some []
+  | Err _ => False
+  end.
+Proof.
+  induction fuel as [|f IH]; intros queue ys o Hq; rewrite mntm_bfs_eq; destruct queue as [|c q].
+  - intro H. inversion H; subst. split; [intros c []|]. split; [simpl; lia|exact I].
+  - intro H. inversion H; subst. split; [intros c' []|]. split; [simpl; lia|reflexivity].
+  - intro H. inversion H; subst. split; [intros c []|]. split; [simpl; lia|exact I].
+  - destruct (Hq c (or_introl eq_refl)) as [Hwf Hrc].
+    destruct (mntm_expand m c) as [o'|new] eqn:He.
+    + intro H. inversion H; subst.
+      split; [intros c' [Hc'|[]]; subst; exact Hrc|]. split; [simpl; lia|].
+      destruct o as [cl|e].
+      * destruct (expand_ok _ _ He) as [-> Ha]. split; [left; reflexivity|exact Ha].
+      * destruct (expand_err _ _ He) as [-> Hd]. exists c. split; [left; reflexivity|exact Hd].
+    + destruct (mntm_bfs m f (q ++ new)) as [ys1 o1] eqn:Er. intro H. inversion H; subst.
+      destruct (expand_inr c new Hwf He) as [_ [Hnew _]].
+      assert (Hq' : forall c', In c' (q ++ new) -> wfs c' /\ mreachable w (abs_mcfg c')).
+      { intros c' Hc'. apply in_app_iff in Hc'. destruct Hc' as [Hc'|Hc'].
+        - apply Hq. right. exact Hc'.
+        - destruct (Hnew c' Hc') as [Hw Hs]. split; [exact Hw|].
+          destruct Hrc as [k Hk]. exists (S k). eapply mreach_snoc; eassumption. }
+      destruct (IH _ _ _ Hq' Er) as [R1 [R2 R3]].
+      split; [|split].
+      * intros c' [Hc'|Hc']; [subst; exact Hrc|apply R1; exact Hc'].
+      * simpl. lia.
+      * destruct o as [cl|[]]; try exact R3.
+        -- destruct R3 as [R3 R4]. split; [right; exact R3|exact R4].
+        -- destruct R3 as [c' [R3 R4]]. exists c'. split; [right; exact R3|exact R4].
+        -- simpl. lia.
+Qed.
+
+(* completeness on rejection: what was dequeued is closed under the step relation *)
+Definition mclosed (l : list mcfg) (all : list mcfg) : Prop :=
+  forall p, In p l -> ~ maccepting (abs_mcfg p) /\
+    forall z, mstep m (abs_mcfg p) z -> exists c, In c all /\ mzcfg_eq (abs_mcfg c) z.
+
+Lemma mntm_bfs_reject fuel : forall P queue ys,
+  (forall c, In c (P ++ queue) -> wfs c) ->
+  mclosed P (P ++ queue) ->
+  mntm_bfs m fuel queue = (ys, Err Reject) ->
+  (forall c, In c (P ++ queue) -> In c (P ++ ys)) /\ mclosed (P ++ ys) (P ++ ys).
+Proof.
+  induction fuel as [|f IH]; intros P queue ys Hwf Hcl; rewrite mntm_bfs_eq; destruct queue as [|c q].
+  - intro H. inversion H; subst. rewrite app_nil_r in *. split; [auto|exact Hcl].
+  - discriminate.
+  - intro H. inversion H; subst. rewrite app_nil_r in *. split; [auto|exact Hcl].
+  - destruct (mntm_expand m c) as [o'|new] eqn:He.
+    + intro H. inversion H; subst. exfalso.
+      destruct (expand_err _ _ He) as [Hx _]. discriminate.
+    + destruct (mntm_bfs m f (q ++ new)) as [ys1 o1] eqn:Er. intro H. inversion H; subst.
+      assert (Hwc : wfs c) by (apply Hwf; apply in_app_iff; right; left; reflexivity).
+      destruct (expand_inr c new Hwc He) as [Hna [Hnew Hall]].
+      assert (Hsub : forall x, In x (P ++ c :: q) -> In x ((P ++ [c]) ++ q ++ new)).
+      { intros x Hx. rewrite !in_app_iff in *. simpl in *. tauto. }
+      destruct (IH (P ++ [c]) (q ++ new) ys1) as [I1 I2].
+      * intros x Hx. rewrite !in_app_iff in Hx. destruct Hx as [[Hx|[Hx|[]]]|[Hx|Hx]].
+        -- apply Hwf. apply in_app_iff. left. exact Hx.
+        -- subst. exact Hwc.
+        -- apply Hwf. apply in_app_iff. right. right. exact Hx.
+        -- exact (proj1 (Hnew x Hx)).
+      * intros p Hp. apply in_app_iff in Hp. destruct Hp as [Hp|[Hp|[]]].
+        -- destruct (Hcl p Hp) as [Hn Hs]. split; [exact Hn|].
+           intros z Hz. destruct (Hs z Hz) as [x [Hx Hxe]]. exists x. split; [apply Hsub; exact Hx|exact Hxe].
+        -- subst p. split; [exact Hna|]. intros z Hz. destruct (Hall z Hz) as [x [Hx Hxe]].
+           exists x. split; [|exact Hxe]. rewrite !in_app_iff. right. right. exact Hx.
+      * exact Er.
+      * split.
+        -- intros x Hx. specialize (Hsub x Hx). specialize (I1 x Hsub).
+           rewrite !in_app_iff in *. simpl in *. tauto.
+        -- replace (P ++ c :: ys1) with ((P ++ [c]) ++ ys1) by (rewrite <- app_assoc; reflexivity).
+           exact I2.
+Qed.
+
+Lemma mclosed_reach l : mclosed l l -> forall k c z, In c l -> mreach m k (abs_mcfg c) z ->
+  exists c', In c' l /\ mzcfg_eq (abs_mcfg c') z.
+Proof.
+  intros Hcl. induction k as [|k IH]; intros c z Hc Hr; inversion Hr; subst.
+  - exists c. split; assumption.
+  - destruct (Hcl c Hc) as [_ Hs].
+    match goal with H : mstep m _ _ |- _ => destruct (Hs _ H) as [p1 [Hp1 He1]] end.
+    apply (IH p1 z Hp1). eapply mreach_cong_l; [apply mzcfg_eq_sym; exact He1|assumption].
+Qed.
+
+Lemma mntm_start_abs w : wfs (mntm_start m w) /\ mzcfg_eq (abs_mcfg (mntm_start m w)) (mt_start m w).
+Proof.
+  unfold wfs, mntm_start, mt_start, abs_mcfg, mzcfg_eq. cbn [fst snd]. split.
+  - constructor; [apply wf_init|]. apply Forall_forall. intros t Ht. apply repeat_spec in Ht. subst. apply wf_init.
+  - split; [reflexivity|]. simpl map. constructor; [apply view_init|].
+    induction (mt_n m - 1) as [|n IH]; simpl; constructor; [apply view_init_blank|exact IH].
+Qed.
+
+Lemma mntm_stepwise_sound w fuel ys o : mntm_stepwise m fuel w = (ys, o) ->
+  (forall c, In c ys -> mreachable w (abs_mcfg c)) /\ length ys <= fuel /\
+  match o with
+  | Ok cl => In cl ys /\ maccepting (abs_mcfg cl)
+  | Err Reject => forall k z, mreach m k (mt_start m w) z -> ~ maccepting z
+  | Err Fuel => length ys = fuel
+  | Err IndexErr => exists c, In c ys /\ mt_delta m (fst c) (map t_read (snd c)) = Some []
+  | Err _ => False
+  end.
+Proof.
+  unfold mntm_stepwise. intro E. destruct (mntm_start_abs w) as [Hwf Hst].
+  assert (Hq : forall c, In c [mntm_start m w] -> wfs c /\ mreachable w (abs_mcfg c)).
+  { intros c [Hc|[]]. subst c. split; [exact Hwf|]. exists 0. apply mr_0. apply mzcfg_eq_sym. exact Hst. }
+  destruct (mntm_bfs_sound w fuel _ _ _ Hq E) as [S1 [S2 S3]].
+  split; [exact S1|]. split; [exact S2|].
+  destruct o as [cl|e]; [exact S3|]. destruct e; try exact S3.
+  (* Reject *)
+  destruct (mntm_bfs_reject fuel [] [mntm_start m w] ys) as [I1 I2].
+  - intros c [Hc|[]]. subst. exact Hwf.
+  - intros p [].
+  - exact E.
+  - simpl in I1, I2. intros k z Hr Hacc.
+    assert (Hr' : mreach m k (abs_mcfg (mntm_start m w)) z)
+      by (eapply mreach_cong_l; [apply mzcfg_eq_sym; exact Hst|exact Hr]).
+    destruct (mclosed_reach ys I2 k _ z (I1 _ (or_introl eq_refl)) Hr') as [c' [Hc' He']].
+    destruct (I2 c' Hc') as [Hn _]. apply Hn. eapply maccepting_cong; [apply mzcfg_eq_sym; exact He'|exact Hacc].
+Qed.
+
+End MNTM.
